@@ -93,6 +93,24 @@ R.contract(
         "unresolvable_when_absent": "implies(container_of(output, self.location) is None or self.parameter not in container_of(output, self.location), result is UNRESOLVABLE())",
     },
 )
+# the same with REAL parameter values - 0, False and "" are values like any other (a link must carry them over, not treat them as missing)
+_Scalar = OneOf(Int, Str, Bool, Opq("Value"))
+OutScalars = Obj("schemathesis.generation.stateful.state_machine:StepOutput",
+                 case=Obj("schemathesis.generation.case:Case", query=OneOf(NoneT, KeyedDict(Str, _Scalar, sizes=(0, 1))), path_parameters=OneOf(NoneT, KeyedDict(Str, _Scalar, sizes=(0, 1))),
+                          headers=NoneT, body=Opq("Value"), operation=Obj("schemathesis.schemas:APIOperation", method=Str)),
+                 response=Obj("schemathesis.core.transport:Response", status_code=IntRange(100, 599), headers=Const({})))
+R.contract(
+    ND + "NonBodyRequest.evaluate",
+    variant="falsy-values",
+    prop="C10",
+    args={"self": Obj(ND + "NonBodyRequest", location=Choice("query", "path"), parameter=Str, extractor=NoneT), "output": OutScalars},
+    ensures={
+        "a_present_parameter_is_used_whatever_its_value": "implies(container_of(output, self.location) is not None and self.parameter in container_of(output, self.location), "
+                                                          "result is not UNRESOLVABLE() and result == container_of(output, self.location)[self.parameter] and "
+                                                          "same_type(result, container_of(output, self.location)[self.parameter]))",
+    },
+)
+R.spec_funcs["same_type"] = lambda it, a, b: __import__("pyvc.builtins_", fromlist=["type_name"]).type_name(a) == __import__("pyvc.builtins_", fromlist=["type_name"]).type_name(b)
 R.spec_funcs["container_of"] = lambda it, output, loc: output.fields["case"].fields["query" if loc == "query" else "path_parameters"]
 R.contract(
     ND + "HeaderResponse.evaluate",
@@ -791,3 +809,19 @@ def expression_literals_and_embeddings(tier, seed):
 
 
 BOUNDED = list(BOUNDED) + [expression_literals_and_embeddings]
+
+
+# ------------------------------------------------------------------------------------------------- native replay helpers (the spec functions a replayed clause needs on real objects)
+def _n_unresolvable():
+    from schemathesis.specs.openapi.expressions.nodes import UNRESOLVABLE
+
+    return UNRESOLVABLE
+
+
+NATIVE = {
+    "helpers": {
+        "container_of": lambda output, loc: output.case.query if loc == "query" else output.case.path_parameters,
+        "same_type": lambda a, b: type(a) is type(b),
+        "UNRESOLVABLE": _n_unresolvable,
+    }
+}
